@@ -53,27 +53,27 @@ func wsURL(letter byte, i int) string {
 	}
 }
 
-func bstr(s string) string { return fmt.Sprintf("%d:%s", len(s), s) }
+func wscapBstr(s string) string { return fmt.Sprintf("%d:%s", len(s), s) }
 
 // wsTorrent hand-encodes a one-piece single-file torrent with the given url-list.
 func wsTorrent(name, letters, form string) []byte {
 	var b bytes.Buffer
 	b.WriteString("d")
-	b.WriteString(bstr("info"))
+	b.WriteString(wscapBstr("info"))
 	b.WriteString("d")
-	b.WriteString(bstr("length") + "i1e")
-	b.WriteString(bstr("name") + bstr(name))
-	b.WriteString(bstr("piece length") + "i16384e")
-	b.WriteString(bstr("pieces") + "20:" + strings.Repeat("x", 20))
+	b.WriteString(wscapBstr("length") + "i1e")
+	b.WriteString(wscapBstr("name") + wscapBstr(name))
+	b.WriteString(wscapBstr("piece length") + "i16384e")
+	b.WriteString(wscapBstr("pieces") + "20:" + strings.Repeat("x", 20))
 	b.WriteString("e")
 	if letters != "-" && letters != "" {
-		b.WriteString(bstr("url-list"))
+		b.WriteString(wscapBstr("url-list"))
 		if form == "s" && len(letters) == 1 {
-			b.WriteString(bstr(wsURL(letters[0], 0)))
+			b.WriteString(wscapBstr(wsURL(letters[0], 0)))
 		} else {
 			b.WriteString("l")
 			for i := 0; i < len(letters); i++ {
-				b.WriteString(bstr(wsURL(letters[i], i)))
+				b.WriteString(wscapBstr(wsURL(letters[i], i)))
 			}
 			b.WriteString("e")
 		}
